@@ -145,13 +145,15 @@ theorem requestLoop_mapPost (fuel : Nat) (s : St) (ev : List Ev) (hw : WF s) :
       | idle =>
         simp only
         refine mapPost_trans hens (mapPost_of_same _ _ ?_ ?_ ?_)
-        · rw [schedule_eq]
-        · rw [schedule_eq]
+        · rw [schedule_eq]; rfl
+        · rw [schedule_eq]; rfl
         · rw [schedule_eq]; exact fun h => h
       | connecting =>
         simp only
-        refine mapPost_trans hens (mapPost_of_same _ _ ?_ ?_ ?_) <;> rw [schedule_eq]
-        exact fun h => h
+        refine mapPost_trans hens (mapPost_of_same _ _ ?_ ?_ ?_)
+        · rw [schedule_eq]; rfl
+        · rw [schedule_eq]; rfl
+        · rw [schedule_eq]; exact fun h => h
       | ready => exact hens
       | shutdown => exact hens
       | tf =>
@@ -253,17 +255,27 @@ theorem rn_exitIdle (s : St) (hw : WF s) (h : RN s) : RN (exitIdle s).1 := by
     exact rn_startFirstPass _ (wf_congr s _ hw a b) h1
   · exact h
 
+theorem rn_timerCallback (s : St) (c : Bool) (hw : WF s) (h : RN s) : RN (timerCallback s c).1 := by
+  unfold timerCallback
+  split
+  · exact h
+  · obtain ⟨i1, i2, i3, _, i5, i6, _⟩ := increment_frame s
+    have h2 : RN (increment s).1 := rn_of_eq _ _ h i1 i3 i5 i6
+    simp only
+    split
+    · exact rn_requestConnection _ (wf_congr _ _ hw i1 i2) h2
+    · exact h2
+
 theorem rn_timerFire (s : St) (hw : WF s) (h : RN s) : RN (timerFire s).1 := by
   unfold timerFire
   split
   · exact h
-  · have h1 : RN { s with timer := false } := rn_of_eq s _ h rfl rfl rfl rfl
-    obtain ⟨i1, i2, i3, _, i5, i6, _⟩ := increment_frame { s with timer := false }
-    have h2 : RN (increment { s with timer := false }).1 := rn_of_eq _ _ h1 i1 i3 i5 i6
-    simp only
-    split
-    · exact rn_requestConnection _ (wf_congr _ _ (wf_congr s _ hw rfl rfl) i1 i2) h2
-    · exact h2
+  · exact rn_timerCallback _ false (wf_congr s _ hw rfl rfl) (rn_of_eq s _ h rfl rfl rfl rfl)
+
+/-- the callback of a cancelled timer does nothing -/
+theorem lateFire_eq (s : St) : lateFire s = (if s.lateTimers = 0 then s else { s with lateTimers := s.lateTimers - 1 }, []) := by
+  unfold lateFire timerCallback
+  split <;> simp
 
 theorem rn_close (s : St) : RN (close s).1 := by
   apply rn_empty
@@ -638,6 +650,15 @@ theorem reg_timerFire (s : St) (hw : WF s) (h : Reg s) : Reg (timerFire s).1 := 
     simp only [hx.timer, Bool.not_false, if_true]
     exact ⟨x, hx⟩
 
+theorem reg_lateFire (s : St) (h : Reg s) : Reg (lateFire s).1 := by
+  rw [lateFire_eq]
+  simp only
+  split
+  · exact h
+  · rcases h with hn | ⟨x, hx⟩
+    · exact Or.inl (rn_of_eq s _ hn rfl rfl rfl rfl)
+    · exact Or.inr ⟨x, ⟨hx.inList, hx.only, hx.raw, hx.timer, hx.cur, hx.notIdle, hx.picker⟩⟩
+
 theorem reg_pick (s : St) (hw : WF s) (h : Reg s) : Reg (pick s).1 := by
   unfold pick
   split
@@ -763,6 +784,7 @@ theorem reg_step (s : St) (op : Op) (hw : WF s) (h : Reg s) (hok : opOk s op = t
     simp only [opOk, hsd, Option.all_some, Bool.and_eq_true, beq_iff_eq] at hok
     exact hok.2
   | tick => exact reg_timerFire s hw h
+  | late => exact reg_lateFire s h
   | exitIdle => exact reg_exitIdle s hw h
   | pick => exact reg_pick s hw h
   | close => exact Or.inl (rn_close s)
